@@ -115,6 +115,9 @@ func runC12(r *core.Run) {
 	var traceLines [][]byte
 	var traceOwner []int // op index per trace line
 	for i := range obs {
+		if obs[i].Skipped {
+			continue // not executed: the run had already met many calls that do not return
+		}
 		o := &obs[i]
 		op := &ops[i]
 		if o.Bad() {
